@@ -1404,6 +1404,15 @@ unsigned char* SZ_compress_customize(const char* cmprName, void* userPara, int d
 unsigned char* SZ_compress_customize_threadsafe(const char* cmprName, void* userPara, int dataType, void* data, size_t r5, size_t r4, size_t r3, size_t r2, size_t r1, size_t *outSize, int *status)
 {
 	unsigned char* result = NULL;
+	//correct dimension if needed, as SZ_compress_args and the decompression side do
+	size_t _r[5];
+	filterDimension(r5, r4, r3, r2, r1, _r);
+	r5 = _r[4];
+	r4 = _r[3];
+	r3 = _r[2];
+	r2 = _r[1];
+	r1 = _r[0];
+
 	if(strcmp(cmprName, "SZ2.0")==0 || strcmp(cmprName, "SZ2.1")==0 || strcmp(cmprName, "SZ")==0)
 	{
 		struct sz_params* para = (struct sz_params*)userPara;
